@@ -15,7 +15,8 @@ ASSUME Lemma
 VARIABLES pg
 PageSpace == [cols : 1..3, rows : 2..4, fill : {"full", "ragged", "sparse"},
               feature : {"none", "stickout", "tinyline", "title", "headingcol", "bullets", "duplayer", "charlevel", "fineprint", "widetitle", "marginnums", "footmark",
-                         "scale10", "scale01", "inverted", "offsetbox", "rtl", "spaceonly", "shortlast", "justified", "repeatword", "nestedbullets", "numbered", "itemlist", "nestedlist"}]
+                         "scale10", "scale01", "inverted", "offsetbox", "rtl", "spaceonly", "shortlast", "justified", "repeatword", "nestedbullets", "numbered", "itemlist", "nestedlist",
+                         "hyphenated", "softhyphen", "dashend"}]    \* lines of a paragraph ending in a hyphen / soft hyphen / dash: characters like any other
 GInit == pg \in PageSpace /\ Init
 GNext == UNCHANGED <<pg, vars>> /\ FALSE
 GSpec == GInit /\ [][GNext]_<<pg, vars>>
